@@ -143,7 +143,29 @@ def run(ck):
     ck.require_passed("R3b.connection-listed-first", fl, ev_exit(), "conn", "return")
     ck.require_response("R3b.hopbyhop-deleted", rh, E.m_mentions("Http::HeaderTableRecord::hopbyhop"), True, ev_call("HttpHeader::delAt"), "delAt")
     rc = facts.fn("HttpHeader::removeConnectionHeaderEntries")
-    ck.require_response("R3b.connection-listed-deleted", rc, E.m_calls("strListIsMember"), True, ev_call("HttpHeader::delAt"), "delAt")
+    # SIBLING: request and response direction must decide "is this field named in Connection:" with the same predicate
+    def membership_callees(fn):
+        """callees of boolean call atoms that look at the entry's name (directly or through a local copy of it)"""
+        out = set()
+        for b in fn.blocks.values():
+            c = (b.get("term") or {}).get("c")
+            for leaf in E.leaves(c) if c is not None else []:
+                l = E.strip(leaf)
+                if isinstance(l, dict) and l.get("k") == "call" and "HttpHeaderEntry::name" in ck.closure_mentions(fn, l) \
+                        and l.get("f", "").split("::")[-1] not in ("operator==", "operator!=", "getEntry"):
+                    out.add(l.get("f"))
+        return out
+    req_pred = membership_callees(copy1)
+    rep_pred = membership_callees(rc)
+    ck.need(req_pred and rep_pred, "C04: Connection-membership tests not found (request side %s, response side %s)" % (sorted(req_pred), sorted(rep_pred)))
+    if req_pred == rep_pred:
+        ck.ok("R3b.sibling-membership", rc.where(), "both directions test Connection membership with %s" % sorted(req_pred))
+    else:
+        ck.violation("R3b.sibling-membership", "R3b|connection-membership-predicates-differ", rc.where(),
+                     "the request-side filter tests Connection membership with %s but the response side uses %s: the two directions "
+                     "tokenise the Connection list differently (e.g. optional whitespace before a comma)" % (sorted(req_pred), sorted(rep_pred)))
+    member = E.M(lambda t: E.strip(t).get("k") == "call" and E.strip(t).get("f") in rep_pred, "membership-test(e->name)")
+    ck.require_response("R3b.connection-listed-deleted", rc, member, True, ev_call("HttpHeader::delAt"), "delAt")
 
     # --- table
     ck.rule("R4 ENUMTABLE(Http::HttpHeaderDefinitionsTable): rows flagged HopByHopHeader ⊇ %s; ctor maps the flag to .hopbyhop" % sorted(HOP_TABLE))
